@@ -12,6 +12,86 @@ def _c19_pre(ov, tier, seed):
 def _c19_post(ev):
     ev["coverage"]["constants_table"] = getattr(_c19_pre, "info", {})
 
+def _c07_after(prop, tier, rc):
+    """Engine M: release-profile semantics of the operators, from MIR (tools/mir2smt.py)."""
+    import json, os, shutil, subprocess, sys, time
+    verif = os.path.dirname(os.path.dirname(os.path.abspath(__file__)))
+    evdir = os.environ.get("VERIF_EVIDENCE_DIR") or os.path.join(verif, "evidence")
+    repdir = os.path.join(os.environ.get("VERIF_REPLAY_DIR") or os.path.join(verif, "replays"), prop)
+    scratch = os.path.join(os.environ.get("VERIF_SCRATCH", "/var/tmp"), f"x86_64-verif.M.{os.getpid()}")
+    t0 = time.time()
+    try:
+        subprocess.check_call(["rsync", "-a", "--exclude", "/target", "--exclude", "/.git", "--exclude", "/testing", "/repo/", scratch + "/"])
+        out = os.path.join(scratch, "m.json")
+        p = subprocess.run(["python3-vt", os.path.join(verif, "tools", "mir2smt.py"), scratch, out], capture_output=True, text=True, timeout=3000)
+        if p.returncode != 0 or not os.path.exists(out):
+            print(f"INCONCLUSIVE property={prop}: engine M failed: {p.stderr[-800:]}", flush=True)
+            return rc if rc == 1 else 2
+        data = json.load(open(out))
+        res = data["results"]
+        sys.path.insert(0, os.path.join(verif, "tools"))
+        violated = [r for r in res if r["verdict"] == "violated"]
+        rep = {}
+        if violated:
+            p2 = subprocess.run(["python3-vt", "-c", "import sys, json; sys.path.insert(0, %r); import mir2smt; d = json.load(open(%r)); print(json.dumps(mir2smt.replay_release(%r, d['results'])))" % (os.path.join(verif, "tools"), out, scratch)],
+                                capture_output=True, text=True, timeout=3000)
+            try:
+                rep = json.loads(p2.stdout.strip().splitlines()[-1])
+            except Exception:
+                rep = {}
+        bad_selftest = [t for t in data["selftest"] if not t["ok"]]
+        incon = [r for r in res if r["verdict"] in ("unsupported", "inconclusive")]
+        nviol = 0
+        os.makedirs(repdir, exist_ok=True)
+        for r in violated:
+            rr = rep.get(r["obligation"], {})
+            name = "M_" + "".join(c if c.isalnum() else "_" for c in r["obligation"])
+            path = os.path.join(repdir, name + ".txt")
+            open(path, "w").write(f"engine M counterexample (release profile, overflow checks off)\nobligation: {r['obligation']} is exact-or-panic\n"
+                                  f"self = {r['a']:#x}, rhs = {r['b']:#x}\nMIR model returns {r['returns']:#x}\nnative release build returned: {rr.get('returned')}\n"
+                                  f"replay: tools/mir2smt.py replay_release() builds a binary against the real crate with `cargo run --release`\n")
+            if rr.get("reproduced"):
+                nviol += 1
+                print(f"VIOLATION property={prop} replay={path}", flush=True)
+                print(f"  engine=M obligation={r['obligation']} self={r['a']:#x} rhs={r['b']:#x} release build returns {rr.get('returned')} (wrapped, no panic)", flush=True)
+            else:
+                print(f"UNCONFIRMED counterexample property={prop} engine=M obligation={r['obligation']} ({rr})", flush=True)
+                incon.append(r)
+        for r in incon:
+            print(f"INCONCLUSIVE property={prop}: engine M {r['obligation']}: {r.get('why', r['verdict'])}", flush=True)
+        for t in bad_selftest:
+            print(f"INCONCLUSIVE property={prop}: engine M self-test failed on {t}", flush=True)
+        evp = os.path.join(evdir, f"{prop}.json")
+        if os.path.exists(evp):
+            ev = json.load(open(evp))
+            cov = ev["coverage"]
+            cov["engine_M"] = dict(
+                what="rustc MIR (-C overflow-checks=off -C debug-assertions=off) of the operator functions, symbolically executed path by path into QF_BV; negated exact-or-panic obligation decided by z3 and cvc5",
+                obligations=len(res), holds=sum(r["verdict"] == "holds" for r in res), violated=len(violated), inconclusive=len(incon),
+                solvers="z3 %s + cvc5 (must agree)" % __import__("subprocess").run(["python3-vt", "-c", "import z3;print(z3.get_version_string())"], capture_output=True, text=True).stdout.strip(),
+                solver_time_s=round(sum(r.get("solver_s", 0) for r in res), 2), wall_s=round(time.time() - t0, 1),
+                functions_encoded=sorted({f for r in res for f in r.get("functions", [])}),
+                selftest=data["selftest"], mir_functions=data["mir_functions"],
+                results=[dict(obligation=r["obligation"], verdict=r["verdict"], paths=r.get("paths"), z3=r.get("z3"), cvc5=r.get("cvc5")) for r in res],
+                bounds="none (all 2^64 x 2^64 operand values, three page sizes)")
+            cov["evaluations"] += len(res)
+            cov["obligations"] += len(res)
+            cov["discharged"] += sum(r["verdict"] == "holds" for r in res)
+            cov["distinct_nontrivial"] += len(res)
+            cov["samples"].append(dict(engine="M", obligation=res[0]["obligation"], verdict=res[0]["verdict"], paths=res[0].get("paths")))
+            ev["violations"] = ev.get("violations", 0) + nviol
+            ev["wall_s"] = round(ev["wall_s"] + time.time() - t0, 2)
+            json.dump(ev, open(evp, "w"), indent=1)
+        print(f"{prop} {tier}: engine M {len(res)} obligations, {sum(r['verdict']=='holds' for r in res)} hold, {nviol} violations, {len(incon)} inconclusive, {time.time()-t0:.0f}s", flush=True)
+        if nviol:
+            return 1
+        if (incon or bad_selftest) and rc == 0:
+            return 2
+        return rc
+    finally:
+        shutil.rmtree(scratch, ignore_errors=True)
+
+
 def K(prefix, **kw):
     d = dict(filters_quick=[prefix + "_"], filters_thorough=[prefix + "_", prefix + "t_"], jobs=8,
              harness_timeout=600, harness_timeout_thorough=3000, total_timeout=3000, total_timeout_thorough=14000,
@@ -48,7 +128,7 @@ PROPS = {
              trusted_base=["rustc->Kani->CBMC", "CaDiCaL", "overlay O1-O4", "ISA model harness/src/verif_isa (cli, sti, hlt, pushfq;pop)"]),
     "C18": K("c18", bounds="no loop; all 65536 ports x all values x 3 widths x 3 access kinds",
              trusted_base=["rustc->Kani->CBMC", "CaDiCaL", "overlay O1-O4", "ISA model harness/src/verif_isa (in/out)"]),
-    "C07": K("c07", bounds="operators: all values (debug profile); ranges: one next() from every range + full iteration of ranges with <= 4 items (unwind 7)"),
+    "C07": K("c07", after=_c07_after, engine="K+M", technique="solver-based: Kani/CBMC bounded model checking (debug profile, ranges) + own MIR->SMT encoder decided by z3/cvc5 (release profile)", bounds="operators: all values (debug profile); ranges: one next() from every range + full iteration of ranges with <= 4 items (unwind 7)"),
     "C03": K("c03", bounds="no loop; all 2^64 (pairs: 2^128) input values; one operation per harness, closure by induction on the type invariant",
              assumptions=["inputs of composed operations satisfy the type invariant (canonical / < 2^52), which each operation is shown to preserve"]),
 }
